@@ -2,6 +2,7 @@
 # usage: tools/run_all.sh quick|thorough [ids...]   - runs the checks one after the other and prints one line each.
 # With VERIF_REPO set, the checks read that tree instead of /repo (used for background runs on a snapshot).
 cd "$(dirname "$0")/.." || exit 2
+mkdir -p .scratch
 tier="${1:-quick}"; shift
 ids="$*"
 [ -n "$ids" ] || ids="C01 C02 C03 C04 C05 C06 C07 C08 C09 C10 C11 C12 C13 C14 C15 C16 C17 C18 C19 C20"
